@@ -25,7 +25,7 @@ PLANS = {
     "C14": {"level": "exploration", "quick": {"n": 8000}, "thorough": {"n": 150000}, "min_eval": 100},
     "C15": {"level": "fault_enumeration", "quick": {"n": 16}, "thorough": {"n": 64}, "min_eval": 30,
             "thorough_over": {"budget_s": 1100, "timeout_s": 2400}},
-    "C16": {"level": "exploration", "quick": {"n": 224}, "thorough": {"n": 1600}, "min_eval": 10},
+    "C16": {"level": "exploration", "quick": {"n": 288}, "thorough": {"n": 2000}, "min_eval": 10},
     "C17": {"level": "exploration", "quick": {"n": 6000}, "thorough": {"n": 90000}, "min_eval": 50},
     "C18": {"level": "fault_enumeration", "quick": {"n": 800}, "thorough": {"n": 12000}, "min_eval": 20},
     "C19": {"level": "exploration", "quick": {"n": 16}, "thorough": {"n": 16}, "min_eval": 500},
